@@ -141,6 +141,29 @@ def make_probe(desc, kk):
         elif idx == 4:
             stmts = pre + [A.Declare(V("e%d" % kk), A.obj()), A.pr(A.ObjectE([A.Single(V("e%d" % kk), True, False), A.Single(A.obj(("x", I(1))), True, False), A.Single(A.obj(("x", I(2)), ("", I(3))), True, False)]))]
             lines = render_obj({"x": 2, "": 3})
+        elif idx == 7:
+            # entries are evaluated one after the other, shorthand entries included
+            av, bump = "av%d" % kk, "bump%d" % kk
+            stmts = pre + [A.Declare(V(av), I(1)), A.FuncStmt(bump, [V("to")], False, [A.Assign(V(av), V("to")), A.Return(I(0))]),
+                           A.pr(A.ObjectE([A.Pair(S("x"), A.call(bump, I(2))), A.Single(V(av), False, False)])),
+                           A.pr(A.ObjectE([A.Single(V(av), False, False), A.Pair(S("x"), A.call(bump, I(3)))])), A.pr(V(av)),
+                           A.pr(A.ObjectE([A.Pair(S("x"), A.call(bump, I(4))), A.Pair(S(av), V(av)), A.Pair(S("y"), A.call(bump, I(5))), A.Single(V(av), False, False)]))]
+            lines = render_obj({av: 2, "x": 0}) + render_obj({av: 2, "x": 0}) + ["3"] + render_obj({av: 5, "x": 0, "y": 0})
+        elif idx == 8:
+            # the object is read after its key expression ran: a key expression that changes the object is seen
+            ov, kf, kg = "ko%d" % kk, "kf%d" % kk, "kg%d" % kk
+            stmts = pre + [A.Declare(V(ov), A.obj(("a", I(1)))), A.FuncStmt(kf, [], False, [A.Assign(A.Prop(V(ov), "a", False), I(2)), A.Return(S("a"))]),
+                           A.FuncStmt(kg, [], False, [A.Assign(A.Index(V(ov), S("late")), I(9)), A.Return(S("late"))]),
+                           A.pr(A.Index(V(ov), A.call(kf))), A.pr(A.Index(V(ov), A.call(kg))), A.pr(V(ov)),
+                           A.Assign(A.Index(V(ov), A.call(kf)), I(7)), A.pr(A.Prop(V(ov), "a", False))]
+            lines = ["2", "9"] + render_obj({"a": 2, "late": 9}) + ["7"]
+        elif idx == 9:
+            # a spread copies the properties the object has at that moment
+            ov, gr = "so%d" % kk, "gr%d" % kk
+            stmts = pre + [A.Declare(V(ov), A.obj(("a", I(1)))), A.FuncStmt(gr, [], False, [A.Assign(A.Index(V(ov), S("b")), I(2)), A.Assign(A.Prop(V(ov), "a", False), I(10)), A.Return(I(0))]),
+                           A.pr(A.ObjectE([A.Single(V(ov), True, False), A.Pair(S("z"), A.call(gr))])), A.pr(V(ov)),
+                           A.pr(A.ObjectE([A.Pair(S("z"), A.call(gr)), A.Single(V(ov), True, False)]))]
+            lines = render_obj({"a": 1, "z": 0}) + render_obj({"a": 10, "b": 2}) + render_obj({"a": 10, "b": 2, "z": 0})
         elif idx == 6:
             stmts = pre + [A.Declare(V("src%d" % kk), A.obj(("k", I(1)))), A.Declare(V("cp%d" % kk), A.ObjectE([A.Single(V("src%d" % kk), True, False)])),
                            A.Assign(A.Prop(V("cp%d" % kk), "k", False), I(2)), A.Assign(A.Index(V("cp%d" % kk), S("n")), I(3)),
@@ -219,7 +242,7 @@ def run(rep, tier):
         for keys in subsets[: (3 if tier == "quick" else 12)]:
             for perm in itertools.permutations(keys):
                 descs.append(("perm", keys, perm, rng.choice(["dot", "idx"])))
-    for idx in range(7):
+    for idx in range(10):
         descs.append(("literal", idx))
     for p1 in ("dot", "idx"):
         for p2 in ("dot", "idx"):
